@@ -7,6 +7,7 @@ package manager
 import (
 	"fmt"
 	"os"
+	"slices"
 	"sort"
 	"strings"
 	"testing"
@@ -28,7 +29,7 @@ var (
 		"cport:", "(", "cdata:(", "ftime:-1h:", `group:"@sport@"`, "sport:80 sort:id", "limit:5 sport:80", "", "tag:missing", "service:nope tag:a", "@sub:sport:80 sport:@sub:sport@",
 	}
 	c11Colors = []string{"#fff", "#000", "red", ""}
-	c11Convs  = [][]string{{}, {"cva"}, {"cvb"}, {"cva", "cvb"}, {"nope"}, {"cva", "nope"}}
+	c11Convs  = [][]string{{}, {"cva"}, {"cvb"}, {"cva", "cvb"}, {"nope"}, {"cva", "nope"}, {"cva", "cva"}, {"cvb", "cva", "cvb"}}
 )
 
 type c11Tag struct {
@@ -378,7 +379,13 @@ func c11Prop(rt *rapid.T, c *vlib.Case, t *testing.T, open map[string]bool) {
 				a := after[name]
 				got := append([]string{}, a.converters...)
 				sort.Strings(got)
-				w := append([]string{}, convs...)
+				// a name given twice is one converter
+				w := []string{}
+				for _, cn := range convs {
+					if !slices.Contains(w, cn) {
+						w = append(w, cn)
+					}
+				}
 				sort.Strings(w)
 				if fmt.Sprint(got) != fmt.Sprint(w) {
 					rt.Fatalf("%s succeeded but attached converters are %v", desc, got)
